@@ -325,6 +325,7 @@ func fioTopLevelRefs(c *Ctx) {
 }
 
 func runFIORead(c *Ctx) {
+	wireNilDict = true
 	fioObjStmHandmade(c, c.R.Fork(), map[bool]int{false: 120, true: 3000}[c.Thorough])
 	fioLengthExtremes(c)
 	fioTopLevelRefs(c)
